@@ -173,7 +173,7 @@ Record pool := mkPool { pl_leaves : list pend; pl_evicted : list (bytes * N) (* 
 Definition empty_pool : pool := mkPool [] [].
 
 Inductive errc :=   (* error classes (strings are not compared) *)
-| EClosed | ERateLimit | EEvicted | EIssuer | ENonFatal | EFatal | ECanceled.
+| EClosed | ERateLimit | EEvicted | EIssuer | ENonFatal | EFatal | ECanceled | ESunset.
 
 Inductive phase :=
 | RClock | RStaging | RCas | RTiles (todo : list upload) (failed : bool) | RCheckpoint | RDiscard.
@@ -864,7 +864,8 @@ Definition step (w : world) (e : ev) : world * list obs :=
     | Some x =>
       match i_pc x with
       | PIdle =>
-        let er := ECanceled in
+        (* RunSequencer returns ctx.Err() or SunsetLogError; its deferred handler fails the pool with it *)
+        let er := match why with SCancel => ECanceled | SSunset => ESunset end in
         let x1 := mkInst (i_cfg x) PStopped (i_tree x) (i_lockcp x) (i_leaves x) empty_pool empty_pool (Some er)
                          (i_issuers x) (i_cache x) (i_rctx x) (i_pub x) in
         fail_pool (set_i w i x1) i (i_pool x) er
